@@ -116,6 +116,7 @@ World* g_live = nullptr;  // the one world whose OSS is alive (ccl::Environment 
 
 struct World {
   int seedKind{ 0 }, policy{ 0 };
+  bool inert{ false };                   // placeholder for a seed that is switched off in this run
   fakesrc::Manager* mgr{ nullptr };      // owned by ccl::Environment
   std::unique_ptr<OSSchema> oss{};
   bool ossLive{ false };
@@ -242,7 +243,11 @@ std::vector<EntityUID> baseSets(const RSForm& f) {
 bool editable(const RSForm& f, EntityUID uid) { return !f.Mods().IsTracking(uid); }
 std::optional<EntityUID> firstOwn(const RSForm& f) { for (const auto uid : f.List()) if (editable(f, uid)) return uid; return std::nullopt; }
 
-// alias-insensitive shape of a definition: global identifiers keep their class letter only
+// alias-insensitive shape of a definition: global identifiers keep their class letter only.
+// The library rewrites a reference from a user addition to an inherited constituent that no longer exists in the
+// new synthesis to `<alias>_ERROR` (rslang TFFactory::GetTransition); the property does not say what becomes of such
+// a reference, so the marker is read as part of the identifier (narrowing, found by the thorough tier:
+// `user adds D:=X1\X1 to a result; X1 disappears from the operand; Execute`).
 std::string shape(const std::string& def) {
   std::string out;
   for (size_t i = 0; i < def.size(); ++i) {
@@ -250,7 +255,11 @@ std::string shape(const std::string& def) {
     const bool startOfId = std::strchr("XCSDAFPT", ch) != nullptr && i + 1 < def.size() && std::isdigit(static_cast<unsigned char>(def[i + 1])) &&
                            (i == 0 || !std::isalnum(static_cast<unsigned char>(def[i - 1])));
     out += ch;
-    if (startOfId) { while (i + 1 < def.size() && std::isdigit(static_cast<unsigned char>(def[i + 1]))) ++i; out += '#'; }
+    if (startOfId) {
+      while (i + 1 < def.size() && std::isdigit(static_cast<unsigned char>(def[i + 1]))) ++i;
+      if (def.compare(i + 1, 6, "_ERROR") == 0) i += 6;
+      out += '#';
+    }
   }
   return out;
 }
@@ -278,13 +287,17 @@ struct Sys {
   int maxExtra{ 2 };        // ... and by this many insertions beyond the seed's own size
   int maxSources{ 8 };
   bool richInit{ false };   // also the (first,last) / (last,first) equation tables
+  unsigned editKinds{ 0xF }; // bit e = edit kind e enabled
+  unsigned editFlags{ 3 };   // 1 = pending variant, 2 = announced variant
+  bool editBasesOnly{ false };
+  int saveOrders{ 2 };
 
-  std::vector<std::pair<int, int>> seedList() const {
-    std::vector<std::pair<int, int>> v;
-    for (int p = 0; p < policies; ++p) for (int k = 0; k < kSeedKinds; ++k) if (seedMask & (1U << k)) v.emplace_back(k, p);
-    return v;
-  }
-  int seeds() const { return static_cast<int>(seedList().size()); }
+  // seed index = policy * 4 + kind, ALWAYS (so that a recorded history means the same under any arguments);
+  // a seed that is switched off yields one inert state without successors
+  bool seedOn(int idx) const { return idx / kSeedKinds < policies && (seedMask & (1U << (idx % kSeedKinds))) != 0; }
+  std::pair<int, int> seedAt(int idx) const { return { idx % kSeedKinds, idx / kSeedKinds }; }
+  int seeds() const { return 2 * kSeedKinds; }
+  int seedsOn() const { int n = 0; for (int i = 0; i < 2 * kSeedKinds; ++i) n += seedOn(i) ? 1 : 0; return n; }
   static int seedSize(int kind) { return kind == 0 ? 0 : kind == 1 ? 3 : kind == 2 ? 6 : 5; }
 
   static fakesrc::Source& userSource(World& w, const std::function<void(RSForm&)>& fill) {
@@ -296,8 +309,9 @@ struct Sys {
   static void require(bool ok, const char* what) { if (!ok) { fprintf(stderr, "HARNESS-ASSERT seed construction failed: %s\n", what); fflush(stderr); abort(); } }
 
   std::unique_ptr<World> fresh(int seedIdx) {
-    const auto [kind, policy] = seedList().at(static_cast<size_t>(seedIdx));
+    const auto [kind, policy] = seedAt(seedIdx);
     auto w = std::make_unique<World>();
+    if (!seedOn(seedIdx)) { w->inert = true; w->Boot(0, 0); return w; }
     if (kind == 2) w->domain = u8"dom/";
     w->Boot(kind, policy);
     w->BeginTransition();
@@ -340,6 +354,7 @@ struct Sys {
   // ---------------------------------------------------------------------------------------------------------
   std::vector<Op> enabled(const World& w) const {
     std::vector<Op> ops;
+    if (w.inert) return ops;
     const auto picts = w.Picts();
     const int n = static_cast<int>(picts.size());
     auto on = [&](int k) { return (kinds & bit(k)) != 0; };
@@ -376,9 +391,12 @@ struct Sys {
     if (on(K_EXEC_ALL) && n > 0) ops.push_back({ K_EXEC_ALL, 0, 0, 0 });
     if (on(K_EDIT)) for (int i = 0; i < n; ++i) if (const auto* src = w.AttachedOpen(picts[static_cast<size_t>(i)]); src != nullptr) {
       const bool own = firstOwn(src->schema).has_value();
+      if (editBasesOnly && isOp(i)) continue;
       for (int e : { kEditAddBase, kEditAddTerm, kEditErase, kEditTermText }) {
+        if ((editKinds & (1U << e)) == 0) continue;
         if ((e == kEditErase || e == kEditTermText) && !own) continue;
-        ops.push_back({ K_EDIT, i, e, 0 }); ops.push_back({ K_EDIT, i, e, 1 });
+        if (editFlags & 1) ops.push_back({ K_EDIT, i, e, 0 });
+        if (editFlags & 2) ops.push_back({ K_EDIT, i, e, 1 });
       }
     }
     if (on(K_ANNOUNCE)) for (int i = 0; i < n; ++i) if (const auto* src = w.AttachedOpen(picts[static_cast<size_t>(i)]); src != nullptr && !src->IsSaved()) ops.push_back({ K_ANNOUNCE, i, 0, 0 });
@@ -387,7 +405,7 @@ struct Sys {
       const auto* handle = w.oss->Src()(picts[static_cast<size_t>(i)]);
       if (handle != nullptr && handle->src == nullptr && !std::empty(*handle) && w.SourceOf(picts[static_cast<size_t>(i)]) != nullptr) ops.push_back({ K_OPEN, i, 0, 0 });
     }
-    if (on(K_SAVELOAD) && n > 0) { ops.push_back({ K_SAVELOAD, 0, 0, 0 }); if (n > 1) ops.push_back({ K_SAVELOAD, 1, 0, 0 }); }
+    if (on(K_SAVELOAD) && n > 0) { ops.push_back({ K_SAVELOAD, 0, 0, 0 }); if (n > 1 && saveOrders > 1) ops.push_back({ K_SAVELOAD, 1, 0, 0 }); }
     return ops;
   }
 
@@ -648,7 +666,7 @@ struct Sys {
   // ---------------------------------------------------------------------------------------------------------
   std::string key(const World& w) {
     const auto& oss = *w.oss;
-    std::string out = "OSS ";
+    std::string out = w.inert ? "INERT " : "OSS ";
     put(out, oss.title); put(out, oss.comment); put(out, s8(oss.Src().ossDomain)); put(out, static_cast<uint64_t>(oss.Src().disableImport)); put(out, oss.Ops().ossPath);
     { std::vector<PictID> ids(oss.idGen.entities.begin(), oss.idGen.entities.end()); std::sort(ids.begin(), ids.end()); out += "ids{"; for (auto u : ids) out += std::to_string(u) + ","; out += "}"; }
     for (const auto pid : w.Picts()) {
@@ -682,6 +700,10 @@ struct Sys {
 
 }  // namespace
 
+// Allocation stacks of 6 frames are enough for attribution and make the allocator-heavy replays ~25% cheaper
+// (the driver's ASAN_OPTIONS does not set this option, so the default below applies).
+extern "C" const char* __asan_default_options() { return "malloc_context_size=6"; }
+
 int main(int argc, char** argv) {
   Options opt = parse_args(argc, argv);
   const double t0 = now_s();
@@ -691,10 +713,19 @@ int main(int argc, char** argv) {
   if (opt.mode == "full") { sys.kinds = kMaskFull; depth = opt.thorough() ? 3 : 2; }
   else if (opt.mode == "struct") { sys.kinds = kMaskStruct; depth = opt.thorough() ? 4 : 3; }
   else if (opt.mode == "fresh") { sys.kinds = kMaskFresh; depth = opt.thorough() ? 4 : 3; }
+  else if (opt.mode == "deep") {   // narrow alphabet, longer histories, on the two seeds with two operation levels
+    sys.kinds = bit(K_EXEC) | bit(K_EXEC_ALL) | bit(K_EDIT) | bit(K_ANNOUNCE) | bit(K_SAVELOAD);
+    sys.editKinds = (1U << kEditAddBase) | (1U << kEditErase); sys.editFlags = 1; sys.editBasesOnly = true; sys.saveOrders = 1;
+    sys.seedMask = 0xC; sys.policies = 1; depth = opt.thorough() ? 4 : 3;
+  }
   else { fprintf(stderr, "unknown mode\n"); return 2; }
   depth = static_cast<int>(opt.num("depth", depth));
-  sys.seedMask = static_cast<unsigned>(opt.num("seeds", 0xF));
-  sys.policies = static_cast<int>(opt.num("policies", 2));
+  sys.seedMask = static_cast<unsigned>(opt.num("seeds", sys.seedMask));
+  sys.policies = static_cast<int>(opt.num("policies", sys.policies));
+  sys.editKinds = static_cast<unsigned>(opt.num("editkinds", sys.editKinds));
+  sys.editFlags = static_cast<unsigned>(opt.num("editflags", sys.editFlags));
+  sys.editBasesOnly = opt.num("editbases", sys.editBasesOnly ? 1 : 0) != 0;
+  sys.saveOrders = static_cast<int>(opt.num("saveorders", sys.saveOrders));
   sys.maxPicts = static_cast<int>(opt.num("maxpicts", 7));
   sys.maxExtra = static_cast<int>(opt.num("maxextra", 2));
   sys.maxSources = static_cast<int>(opt.num("maxsources", 9));
@@ -714,15 +745,16 @@ int main(int argc, char** argv) {
   res.evaluations = res.rep.counters["state_checks"] + st.transitions;
   res.distinct_nontrivial = st.changed;
   res.exhaustive = st.exhaustive;
-  res.completed_bound = "all histories of <= " + std::to_string(st.completed_depth) + " operations (requested " + std::to_string(depth) + ") from " + std::to_string(sys.seeds()) +
+  res.completed_bound = "all histories of <= " + std::to_string(st.completed_depth) + " operations (requested " + std::to_string(depth) + ") from " + std::to_string(sys.seedsOn()) +
                         " seed states (seed kinds mask " + std::to_string(sys.seedMask) + " x " + std::to_string(sys.policies) + " uid policies); new states per level: " + levels;
   res.alphabet = std::string("pictograms by uid rank; ") +
                  ((sys.kinds & bit(K_INSERT_BASE)) ? "InsertBase; " : "") + ((sys.kinds & bit(K_CONNECT)) ? "ConnectPict2Src(base, new source with schema in {X1 | X1,D1:=X1\\X1 | empty}); " : "") +
                  ((sys.kinds & bit(K_INSERT_OP)) ? "InsertOperation(p,q) all ordered pairs incl. p=q + missing operands; " : "") + ((sys.kinds & bit(K_ERASE)) ? "Erase(p) every pictogram + missing; " : "") +
                  ((sys.kinds & bit(K_INIT)) ? "InitFor(o, merge | synt{1-entry table on the parents' base sets} | synt{42=42}); " : "") + ((sys.kinds & bit(K_EXEC)) ? "Execute(o) every operation + one base; " : "") +
-                 ((sys.kinds & bit(K_EXEC_ALL)) ? "ExecuteAll; " : "") + ((sys.kinds & bit(K_EDIT)) ? "Edit(p, add base set | add term | erase first own constituent | change a term text only) x (announced | pending) on every attached source incl. operation results (= user additions); " : "") +
+                 ((sys.kinds & bit(K_EXEC_ALL)) ? "ExecuteAll; " : "") + ((sys.kinds & bit(K_EDIT)) ? "Edit(p, {" + std::string((sys.editKinds & 1) ? "add base set " : "") + ((sys.editKinds & 2) ? "| add term " : "") + ((sys.editKinds & 4) ? "| erase first own constituent " : "") + ((sys.editKinds & 8) ? "| change a term text only" : "") + "}) x {" +
+                   ((sys.editFlags & 1) ? "pending " : "") + ((sys.editFlags & 2) ? "announced" : "") + "} on every attached source" + (sys.editBasesOnly ? " of a base pictogram; " : " incl. operation results (= user additions); ") : std::string()) +
                  ((sys.kinds & bit(K_ANNOUNCE)) ? "Announce(p)=SaveState; " : "") + ((sys.kinds & bit(K_CLOSE)) ? "Close(p); " : "") + ((sys.kinds & bit(K_OPEN)) ? "Open(p); " : "") +
-                 ((sys.kinds & bit(K_SAVELOAD)) ? "save->load of the whole document via JSON (items as stored | reversed); " : "") +
+                 ((sys.kinds & bit(K_SAVELOAD)) ? (sys.saveOrders > 1 ? "save->load of the whole document via JSON (items as stored | reversed); " : "save->load of the whole document via JSON; ") : "") +
                  "limits: <= " + std::to_string(sys.maxPicts) + " pictograms, <= seed+" + std::to_string(sys.maxExtra) + " insertions, <= " + std::to_string(sys.maxSources) + " documents";
   res.rule = "state = exact canonical dump of OSSchema (all five pictogram-keyed tables, graph facet in index order, handles, options, translations, flags, uid generator) + every document of the environment "
              "(flags + exact RSForm dump) + outstanding freshness obligations; de-duplicated on its 128-bit hash; invariants evaluated in every state, transition checks on every transition; "
